@@ -353,6 +353,21 @@ def step (line : String) : String :=
       match mkCall (kv.int "lo") (kv.int "chrom") (kv.int "qid") (kv.int "rs") (kv.int "re") (kv.int "qs") (kv.int "qe") with
       | none => "none"
       | some c => showCall c
+    | "CALLS" =>
+      -- variant=seg: BP = breakage indices;  variant=mol: BP = one index, BPAIR = the breakage pair
+      let rpos := kv.ints "R"
+      let qpos := kv.ints "Q"
+      let pairs := pBPairs (kv.get "PAIRS")
+      if kv.get "variant" = "seg" then
+        -- the real finder keeps two lists: insertions as found, then deletions as found
+        exc (segmentCalls (kv.int "chrom") (kv.int "qid") rpos qpos pairs (kv.ints "BP")) fun cs =>
+          ";".intercalate ((cs.filter (·.isIns) ++ cs.filter (fun c => !c.isIns)).map showCall)
+      else
+        let bp := (pBPairs (kv.get "BPAIR")).headD (0, 0)
+        exc (moleculeCall (kv.int "chrom") (kv.int "qid") rpos qpos pairs (kv.int "BP") bp) fun c =>
+          match c with
+          | some c => showCall c
+          | none   => ""
     | "RUN" =>
       let cfg : Cfg := { P := pParams kv, C := pChain kv, maxDifference := kv.int "diff", den := (kv.int "den").toNat }
       if kv.has "sec" then
